@@ -383,6 +383,13 @@ func (m *Map) Range(f func(k, v any) bool) {
 	coop.Acquire(&m.hb)
 	coop.Touch(&m.hb, 32, uint64(len(m.keys)))
 	keys := append([]any(nil), m.keys...)
+	// sync.Map.Range visits the entries in no particular order: with RangeOrderChoice the explorer
+	// also runs the reverse of the insertion order (one "order" deviation)
+	if RangeOrderChoice && len(keys) > 1 && coop.OrderChoice(2) == 1 {
+		for i, j := 0, len(keys)-1; i < j; i, j = i+1, j-1 {
+			keys[i], keys[j] = keys[j], keys[i]
+		}
+	}
 	for i, k := range keys {
 		if i > 0 && FineRange {
 			coop.Point("Map.Range.next", nil)
@@ -398,6 +405,10 @@ func (m *Map) Range(f func(k, v any) bool) {
 		}
 	}
 }
+
+// RangeOrderChoice makes the visiting order of Map.Range an explorer choice (insertion order or
+// its reverse). Set by harnesses whose property depends on results that are gathered by a Range.
+var RangeOrderChoice = false
 
 // FineRange adds a scheduling point before every element a Range visits.
 var FineRange = true
